@@ -58,7 +58,7 @@ REG_ENUMS = {
 }
 STREAMS = ["SystemInfoStream", "LinuxCpuInfo", "LinuxProcStatus", "LinuxLsbRelease", "LinuxEnviron",
            "MozLinuxLimits", "BreakpadInfoStream", "AssertionInfoStream", "MozMacosCrashInfoStream",
-           "MozMacosBootargsStream"]
+           "MozMacosBootargsStream", "MozSoftErrors"]
 
 
 def die(msg):
